@@ -82,7 +82,11 @@ class Walker:
         for a in obj.attribute:
             r = ir_data_utils.reader(a)
             out.append({"n": a.name.text, "b": r.back_end.text or "", "d": bool(a.is_default),
-                        "v": self.aval(a)})
+                        "v": self.aval(a),
+                        # spans (not read by CHECK): the whole attribute, its name, its value
+                        "loc": {"whole": str(a.source_location), "name": str(a.name.source_location),
+                                "value": str(a.value.source_location),
+                                "syn": bool(a.source_location.is_synthetic)}})
         return out
 
     # ------------------------------------------------------------ types
@@ -109,6 +113,7 @@ class Walker:
     def field(self, f, bounds):
         virtual = not f.has_field("location")
         d = {"name": f.name.name.text, "virtual": virtual, "attrs": self.attrs(f),
+             "loc": str(f.source_location),
              "ty": {"a": [0, None]}, "start": None, "size": None, "min": "0", "max": "0",
              "vkind": "other"}
         if virtual:
@@ -455,3 +460,67 @@ def real_kinds(errors):
 
 
 EARLY_KINDS = {"param-needs-size", "param-enum-sized"}
+# kinds reported by attribute_util._check_attributes (the attribute-table rule family)
+ATTR_TABLE_KINDS = ("dup-attr", "unknown-attr", "no-default", "attr-type", "attr-const", "attr-choice",
+                    "attr-back-ends")
+
+
+# kinds reported by attribute_checker._verify_attributes_on_ir, and those of its `Field` traversal
+VERIFY_KINDS = ("back-end-mismatch", "fixed-size-variable", "fixed-size-mismatch", "max-bits-range",
+                "unit-missing", "unit-bad", "bo-not-allowed", "bo-required", "bo-null", "requires-array",
+                "requires-type")
+FIELD_VERIFY_KINDS = ("bo-not-allowed", "bo-required", "bo-null", "requires-array", "requires-type")
+
+
+def fields_by_id(program):
+    """(type id, field name) -> field of the abstract program; and the value spans of every
+    `$default byte_order` attribute (where an inherited byte order's errors are reported)."""
+    out, defaults = {}, set()
+
+    def note(attrs):
+        for a in attrs:
+            if a["d"] and a["n"] == "byte_order":
+                defaults.add(a["loc"]["value"])
+
+    def go(td):
+        note(td["attrs"])
+        for f in td["fields"]:
+            out.setdefault((td["id"], f["name"]), f)
+        for s in td["sub"]:
+            go(s)
+    for m in program:
+        note(m["attrs"])
+        for td in m["types"]:
+            go(td)
+    return out, defaults
+
+
+def attr_lists(program):
+    """The attribute lists `check_attributes_in_ir` visits, in its order (four traversals: modules;
+    type definitions in preorder; the fields of each type definition; the enum values of each),
+    each with the scope whose table applies.  From the abstract program."""
+    out = []
+
+    def types(tds):
+        for td in tds:
+            yield td
+            for s in types(td["sub"]):
+                yield s
+    alltypes = [td for m in program for td in types(m["types"])]
+    for m in program:
+        out.append(("module", m["attrs"]))
+    for td in alltypes:
+        if td["kind"] == "struct":
+            scope = {8: "struct", 1: "bits"}.get(td["unit"])
+            if scope is None:
+                raise OutOfScope("structure without addressable unit")
+        else:
+            scope = td["kind"]
+        out.append((scope, td["attrs"]))
+    for td in alltypes:
+        for f in td["fields"]:
+            out.append(("vfield" if f["virtual"] else "field", f["attrs"]))
+    for td in alltypes:
+        for v in td["values"]:
+            out.append(("value", v["attrs"]))
+    return out
